@@ -3,7 +3,7 @@ import json, os, re, concurrent.futures
 import lib
 
 # which switches of HopGrants.tla describe the code in /repo
-CODE = dict(CheckStart="TRUE", CheckIssue="TRUE", CheckPF="FALSE")   # as found: all three FALSE; two repaired, port forwarding is a recorded finding
+CODE = dict(CheckStart="TRUE", CheckIssue="TRUE", CheckPF="TRUE")   # as found: all three FALSE; all three repaired in /repo
 
 CFG = """SPECIFICATION %s
 CONSTANTS
